@@ -138,6 +138,13 @@ impl<'a> Rt<'a> {
         Instant::now()
     }
 
+    /// Run `f` with this runtime's clock as the current tokio clock.
+    #[cfg_attr(not(feature = "unstable-fs"), allow(dead_code))]
+    pub(crate) fn with_clock<R>(&self, f: impl FnOnce() -> R) -> R {
+        let _guard = self.tokio.enter();
+        f()
+    }
+
     // This method is called by [`Sim::run`], which iterates through all the
     // runtimes and ticks each one. The magic of this method is described in the
     // documentation for [`LocalSet::run_until`], but it may not be entirely
